@@ -51,3 +51,50 @@ VH_ENTRY vh_roundtrip() {
   free(s); free(b);
   VH_END();
 }
+
+// ---- space-padded and zero-padded tags select the same feature (gr_face_find_fref) and the same language (gr_face_featureval_for_lang)
+#ifdef VH_TAGSEL
+#define NS 0
+#define NSPARE 0
+#include "world.h"
+#include "inc/FeatureMap.h"
+#include "inc/FeatureVal.h"
+VH_ENTRY vh_tag_select() {
+  World w; vh_make_face(w);
+  // a tag of 1..4 significant characters (no NUL, no space), zero padded
+  unsigned nsig = 1 + (nondet_u8() & 3);
+  uint32_t zero = 0, space = 0;
+  for (unsigned i = 0; i < 4; ++i) {
+    uint8_t ch = nondet_u8(); ASSUME(ch != 0 && ch != 0x20);
+    zero = (zero << 8) | (i < nsig ? ch : 0u);
+    space = (space << 8) | (i < nsig ? ch : 0x20u);
+  }
+  // one feature and one language carrying exactly the zero-padded tag
+  FeatureMap &map = w.face->m_Sill.m_FeatureMap;
+  FeatureRef *fr = vh_new<FeatureRef>(1);
+  unsigned short bits = 0;
+  ::new (fr) FeatureRef(*w.face, bits, 1, zero, 0, FeatureRef::flags_t(0), 0, 0);
+  NameAndFeatureRef *named = vh_new<NameAndFeatureRef>(1);
+  named[0].m_name = zero; named[0].m_pFRef = fr;
+  map.m_feats = fr; map.m_pNamedFeats = named; map.m_numFeats = 1;
+  const gr_face *gf = static_cast<const gr_face *>(w.face);
+  const gr_feature_ref *a = gr_face_find_fref(gf, zero), *b = gr_face_find_fref(gf, space);
+  ASSERT(a == static_cast<const gr_feature_ref *>(fr), "the zero-padded tag finds the feature");
+  ASSERT(b == a, "the space-padded spelling of the same tag finds the same feature");
+  // language selection goes through the same normalisation
+  SillMap &sill = w.face->m_Sill;
+  Features *lf = vh_new<Features>(1);
+  ::new (lf) Features();
+  lf->m_first = vh_new<uint32>(1); lf->m_last = lf->m_end = lf->m_first + 1; lf->m_first[0] = 1; lf->m_pMap = &map;
+  map.m_defaultFeatures.m_first = vh_new<uint32>(1); map.m_defaultFeatures.m_last = map.m_defaultFeatures.m_end = map.m_defaultFeatures.m_first + 1;
+  map.m_defaultFeatures.m_first[0] = 0; map.m_defaultFeatures.m_pMap = &map;
+  typedef SillMap::LangFeaturePair LFP;
+  LFP *lfp = vh_new<LFP>(1);
+  lfp[0].m_lang = zero; lfp[0].m_pFeatures = lf;
+  sill.m_langFeats = lfp; sill.m_numLanguages = 1;
+  gr_feature_val *vz = gr_face_featureval_for_lang(gf, zero), *vs = gr_face_featureval_for_lang(gf, space);
+  ASSUME(vz != 0 && vs != 0);
+  ASSERT(gr_fref_feature_value(a, vz) == 1 && gr_fref_feature_value(a, vs) == 1, "zero- and space-padded language tags select the same language's feature values");
+  VH_END();
+}
+#endif
